@@ -87,6 +87,14 @@ Example C14_sqrt_nonvacuous :
   tick_to_sqrt_price 342000000 = Ok MaxSqrtPriceBigDec.
 Proof. vm_compute. repeat split; reflexivity. Qed.
 
+(* ---- price -> tick ---- *)
+(* tick -> price -> tick is the identity on the whole initialisable range, extended low range included
+   (unchopped 36-decimal prices below 10^-12) *)
+Theorem C14_price_round_trip : forall t p, MinInitializedTickV2 <= t <= MaxTick ->
+  tick_to_price t = Ok p -> calculate_price_to_tick p = Ok t.
+Proof. exact price_round_trip_main. Qed.
+Print Assumptions C14_price_round_trip.
+
 (* ---- sqrt price -> tick ---- *)
 (* bucket mapping on the swap-reachable range, for EVERY sqrt price between adjacent ticks: lower edge inclusive,
    upper edge exclusive.  (Proof: the candidate computed from the half-even rounded square, chopped to 18 decimals,
